@@ -153,6 +153,11 @@ def aux_enums():
         E('E11b', [Var('V0', 0), Var('V1', 1), Var('V2', 2)], index_only=True),
         E('E12a', [Var('V0', 0), Var('V1', 1)]),
         E('E12b', [Var('V0', 0, 'named', [F('f00', 'Option<u8>', 0)]), Var('V1', 1, 'tuple', [F('_0', 'Option<String>', 0)])]),
+        # unit variants that carry their own encoding override (the body written for them must already be of the kind the later version reads)
+        E('E13a', [Var('V0', 0, enc='map'), Var('V1', 1, enc='array'), Var('V2', 2)], enc='array'),
+        E('E13b', [Var('V0', 0, 'named', [F('f00', 'Option<u8>', 0)], enc='map'), Var('V1', 1, 'tuple', [F('_0', 'Option<u8>', 0)], enc='array'), Var('V2', 2, 'named', [F('f00', 'Option<u8>', 1)])], enc='array'),
+        E('E14a', [Var('V0', 0, enc='array'), Var('V1', 1)], enc='map'),
+        E('E14b', [Var('V0', 0, 'tuple', [F('_0', 'Option<u8>', 0)], enc='array'), Var('V1', 1, 'named', [F('f00', 'Option<String>', 3)])], enc='map'),
     ]
 
 
@@ -347,6 +352,8 @@ def main():
     # E12 pair: unit -> struct/tuple variant with only optional fields
     pair_meta = [{'old': a['name'], 'new': b['name'], 'relation': rel} for a, b, rel in pairs]
     pair_meta.append({'old': 'E12a', 'new': 'E12b', 'relation': 'unit variants become struct/tuple variants with only optional fields'})
+    pair_meta.append({'old': 'E13a', 'new': 'E13b', 'relation': 'unit variants with variant-level encoding overrides become struct/tuple variants (array enum)'})
+    pair_meta.append({'old': 'E14a', 'new': 'E14b', 'relation': 'unit variants with variant-level encoding overrides become struct/tuple variants (map enum)'})
     if rnd_n:
         C += random_schemas(rnd_n, seed)
     src = HEADER + '\n\n'.join(emit(s) for s in C) + '\n'
